@@ -483,14 +483,6 @@ class Runner:
         return self.conclude(results, t)
 
     def conclude(self, results, t):
-        stats = []
-        for i in results:
-            f = os.path.join(self.bdir, "stats.%d.json" % i)
-            if os.path.exists(f):
-                try:
-                    stats += [s for s in json.load(open(f)) if s["property"] == self.prop]
-                except Exception:
-                    pass
         known = set()
         violations = []
         inconclusive = []
@@ -517,8 +509,25 @@ class Runner:
                 # no trace was written: keep the log as the replay artefact
                 json.dump({"property": self.prop, "note": "test failed without writing a trace", "log_tail": text[-8000:]}, open(rp, "w"), indent=1)
             if rc == 3 and not self.replay:
+                # the watchdog measures real time: a stall of the machine looks like a hang. The engines that use it
+                # are deterministic, so a real hang shows again when the journal is replayed in a fresh process.
+                if not self.confirm_hang(i, rp):
+                    rc2 = self.rerun_shard(i, t)
+                    if rc2 == 0:
+                        self.stalls = getattr(self, "stalls", 0) + 1
+                        continue
+                    inconclusive.append("shard %d: the watchdog fired, the journal does not hang when replayed, and the repeated shard ended with %d" % (i, rc2))
+                    continue
                 self.minimise_hang(i, rp)
             violations.append((i, rp, text))
+        stats = []
+        for i in results:
+            f = os.path.join(self.bdir, "stats.%d.json" % i)
+            if os.path.exists(f):
+                try:
+                    stats += [s for s in json.load(open(f)) if s["property"] == self.prop]
+                except Exception:
+                    pass
         for k in sorted(known):
             print(k)
         self.write_evidence(stats, len(violations), known, inconclusive, t)
@@ -539,6 +548,42 @@ class Runner:
             return 2
         print("OK property=%s tier=%s cases=%d wall=%.1fs" % (self.prop, self.tier, sum(s["cases"] for s in stats), time.time() - self.t0))
         return 0
+
+    def confirm_hang(self, shard, rp, tries=3):
+        """Replays a watchdog journal in fresh processes; True when it is stopped by the watchdog (or fails) again."""
+        try:
+            part = self.parts()[shard % len(self.parts())]
+            binp = self.bins[part["pkg"]]
+            for k in range(tries):
+                env = self.env()
+                env.update(VERIF_REPLAY_IN=rp, VERIF_REPLAY_OUT=os.path.join(self.bdir, "confirm.out.json"), VERIF_STATS=os.path.join(self.bdir, "confirm.stats.json"))
+                try:
+                    r = subprocess.run([binp, "-test.run", "^%s$" % part["test"], "-test.timeout", "60s"], cwd=self.bdir, env=env, capture_output=True, timeout=90)
+                except subprocess.TimeoutExpired:
+                    return True
+                if r.returncode != 0:
+                    return True
+            return False
+        except Exception as e:
+            print("note: hang confirmation skipped:", repr(e))
+            return True
+
+    def rerun_shard(self, i, t):
+        """Runs shard i again (same arguments, same PRNG value) after an unconfirmed watchdog stop."""
+        shards = t.get("shards", 1)
+        env = self.env(t.get("env"))
+        env.update(VERIF_STATS=os.path.join(self.bdir, "stats.%d.json" % i), VERIF_REPLAY_OUT=os.path.join(self.bdir, "replay.%d.json" % i),
+                   VERIF_SHARD=str(i), VERIF_SHARDS=str(shards), VERIF_BDIR=self.bdir,
+                   VERIF_VERBOSE=str((i // max(1, len(self.parts())) + self.seed) % 2))
+        try:
+            os.remove(os.path.join(self.bdir, "replay.%d.json" % i))
+        except OSError:
+            pass
+        with open(os.path.join(self.bdir, "log.%d.rerun.txt" % i), "w") as log:
+            try:
+                return subprocess.run(self.shard_cmd(i, t), cwd=self.bdir, env=env, stdout=log, stderr=subprocess.STDOUT, timeout=t["timeout"] + 60).returncode
+            except subprocess.TimeoutExpired:
+                return -999
 
     def minimise_hang(self, shard, rp, budget=24):
         """Delta debugging of a watchdog journal (a history that ends in a call that never returns) over
@@ -620,6 +665,8 @@ class Runner:
             "known_findings_reported": sorted(known),
             "inconclusive": inconclusive,
         }
+        if getattr(self, "stalls", 0):
+            cov["watchdog_stops_not_reproduced_and_shard_repeated"] = self.stalls
         if extra:
             cov["extra"] = extra
         if getattr(self, "fuzz_execs", None) is not None:
